@@ -5,6 +5,7 @@ import Proofs.C17_Base64
 import Proofs.C17_Images
 import Proofs.C17_XmlPlain
 import Proofs.C17_Example
+import Proofs.C17_Ext7
 import Proofs.Pins
 namespace Mammoth
 
@@ -640,5 +641,85 @@ theorem C17_tables_as_validated :
     (Generated.imageExtensions = pin_imageExtensions) ∧
     (sameSet Generated.namespaces pin_namespaces = true) :=
   ⟨pins_browserImageTypes, pins_imageExtensions, pins_namespaces⟩
+
+/-! ### round 7: every converter on an embedded part; the reader's type warning -/
+
+/-- THE CONVERTER ON AN EMBEDDED IMAGE, every converter of the family, every state, part present or not.
+    `convertImage` on an image whose source is the zip entry `name` is exactly this: if the archive has the
+    entry (last entry of that name wins) with content `bytes`, one `img` and nothing else — for `data_uri`
+    alt? ++ `src` = the data URI of `bytes` under the image's content type; for a custom converter returning
+    `attrs`: alt? ++ `attrs` as given, in order, followed (when it reads the stream) by `data-len` = the
+    number of bytes the stream delivered, i.e. `bytes.length` — the call is logged, no message, no I/O; if
+    the entry is missing, a converter that opens the image raises `KeyError(name)` (no output at all) and
+    one that does not open it still returns its `img`. -/
+theorem C17_convert_embedded_exact (cfg : Cfg) (i : ImageProps) (name : Str) (st : ConvState)
+    (hs : i.src = .embedded name) :
+    (convertImage cfg i).run st =
+      match lookupLast name cfg.archive with
+      | some bytes => .ok ([c17x_imgFor cfg.imageConv i bytes], { st with imageCalls := st.imageCalls ++ [i] })
+      | none => if c17x_opens cfg.imageConv then .error (.key name)
+                else .ok ([c17x_imgFor cfg.imageConv i []], { st with imageCalls := st.imageCalls ++ [i] }) :=
+  c17x_convert_embedded cfg i name st hs
+
+/-- A custom converter that reads the stream, part present: exactly one `img`, attributes alt? ++ `attrs` ++
+    `data-len`; read as a dictionary (last wins) every key the converter returned has the converter's value —
+    `alt` included — unless it is `data-len`, which is the byte count of exactly the referenced part. -/
+theorem C17_custom_converter_stream (cfg : Cfg) (i : ImageProps) (name : Str) (bytes : Bytes)
+    (attrs : List (Str × Str)) (st : ConvState)
+    (hc : cfg.imageConv = .fixed attrs true) (hs : i.src = .embedded name)
+    (h : lookupLast name cfg.archive = some bytes) :
+    (convertImage cfg i).run st =
+      .ok ([el S!"img" (c17_altAttr i ++ attrs ++ [(S!"data-len", natToStr bytes.length)]) []],
+           { st with imageCalls := st.imageCalls ++ [i] }) ∧
+    Dict.get? S!"data-len" (Dict.ofList (c17_altAttr i ++ attrs ++ [(S!"data-len", natToStr bytes.length)])) =
+      some (natToStr bytes.length) ∧
+    ∀ k, k ≠ S!"data-len" →
+      Dict.get? k (Dict.ofList (c17_altAttr i ++ attrs ++ [(S!"data-len", natToStr bytes.length)])) =
+        (lookupLast k attrs).or (lookupLast k (c17_altAttr i)) := by
+  refine ⟨?_, ?_, ?_⟩
+  · rw [C17_convert_embedded_exact cfg i name st hs, h, hc]; rfl
+  · rw [c17_get_ofList, c17_lookupLast_append]; simp [lookupLast]
+  · intro k hk
+    rw [c17_get_ofList, c17_lookupLast_append, c17_lookupLast_append]
+    have : lookupLast k [(S!"data-len", natToStr bytes.length)] = none := by
+      simp [lookupLast, hk]
+    rw [this]; rfl
+
+/-- THE READER'S TYPE WARNING.  `_read_image` returns (besides the one image element, `C17_readImage_typed`)
+    no extra element and: no message iff the looked-up content type is one of the browser-friendly types;
+    otherwise exactly one message, `Image of type <type or None> is unlikely to display in web browsers`. -/
+theorem C17_readImage_warning (env : REnv) (path : Str) (src : ImageSrc) (alt : Option Str) :
+    (readImage env path src alt).extra = [] ∧
+    (readImage env path src alt).messages =
+      (match findContentType env.contentTypes path with
+        | some c => if Generated.browserImageTypes.contains c then []
+                    else [S!"Image of type " ++ c ++ S!" is unlikely to display in web browsers"]
+        | none => [S!"Image of type None is unlikely to display in web browsers"]) ∧
+    ((readImage env path src alt).messages = [] ↔
+      ∃ c, findContentType env.contentTypes path = some c ∧ Generated.browserImageTypes.contains c = true) := by
+  have h := c17x_readImage_messages env path src alt
+  refine ⟨h.2, h.1, ?_⟩
+  rw [h.1]; unfold c17x_typeWarning
+  cases findContentType env.contentTypes path with
+  | none => simp
+  | some c => cases hb : Generated.browserImageTypes.contains c <;> simp [hb]
+
+#print axioms C17_convert_embedded_exact
+#print axioms C17_custom_converter_stream
+#print axioms C17_readImage_warning
+
+/-- non-vacuity: a custom converter reading the 3-byte part; a missing part under the default converter is a
+    KeyError, under a non-opening converter still an `img`; png is browser-friendly, bmp and "no type" warn -/
+example : (convertImage { c17_exCfg with imageConv := .fixed [(S!"alt", S!"dog"), (S!"src", S!"u")] true } c17_exImg).run {} =
+    .ok ([el S!"img" [(S!"alt", S!"cat"), (S!"alt", S!"dog"), (S!"src", S!"u"), (S!"data-len", S!"3")] []],
+         { imageCalls := [c17_exImg] }) := by rfl
+example : (convertImage {} c17_exImg).run {} = .error (.key S!"word/media/a.png") ∧
+    (convertImage { imageConv := .fixed [(S!"src", S!"u")] false } c17_exImg).run {} =
+      .ok ([el S!"img" [(S!"alt", S!"cat"), (S!"src", S!"u")] []], { imageCalls := [c17_exImg] }) := ⟨rfl, rfl⟩
+example : (readImage {} S!"word/media/a.png" (.embedded S!"word/media/a.png") none).messages = [] ∧
+    (readImage {} S!"word/media/a.bmp" (.embedded S!"word/media/a.bmp") none).messages =
+      [S!"Image of type image/bmp is unlikely to display in web browsers"] ∧
+    (readImage {} S!"word/media/a.bin" (.embedded S!"word/media/a.bin") none).messages =
+      [S!"Image of type None is unlikely to display in web browsers"] := by decide +kernel
 
 end Mammoth
